@@ -381,7 +381,7 @@ func (c *Ctx) havocAll(s *State) {
 }
 
 // checkFrame emits one obligation per heap array that changed relative to snap.
-func (c *Ctx) checkFrame(s *State, snap map[string]string, mods []modEntry, allocBase string, kind, label string) {
+func (c *Ctx) checkFrame(s *State, snap map[string]string, mods []modEntry, allocBase string, kind, label string, pos token.Pos) {
 	if modsAll(mods) {
 		return
 	}
@@ -448,7 +448,7 @@ func (c *Ctx) checkFrame(s *State, snap map[string]string, mods []modEntry, allo
 		if label != "" {
 			lb = label + "." + lb
 		}
-		c.oblige(s, kind, lb, goal, "unchanged outside modifies: "+name, token.NoPos)
+		c.oblige(s, kind, lb, goal, "unchanged outside modifies: "+name, pos)
 	}
 }
 
@@ -1060,15 +1060,20 @@ func (c *Ctx) appendStructElems(s *State, dst, src, res SliceV, fits string, el 
 	lo := res.Off
 	mid := c.idxAdd(res.Off, dst.Len)
 	hi := c.idxAdd(res.Off, res.Len)
-	var walk func(t types.Type, path func(base string) string)
-	walk = func(t types.Type, path func(base string) string) {
+	// path: element ref -> ref of the (possibly nested) struct holding the field; inv: ref r -> (element ref term, condition that r has that shape)
+	var walk func(t types.Type, path func(base string) string, inv func(r string) (string, string))
+	walk = func(t types.Type, path func(base string) string, inv func(r string) (string, string)) {
 		u := structOf(t)
 		for i := 0; i < u.NumFields(); i++ {
 			ft := u.Field(i).Type()
 			if isAggregate(ft) {
 				if structOf(ft) != nil {
 					ii := i
-					walk(ft, func(base string) string { return fmt.Sprintf("(mksub %s %d)", path(base), ii) })
+					walk(ft, func(base string) string { return fmt.Sprintf("(mksub %s %d)", path(base), ii) },
+						func(r string) (string, string) {
+							er, cond := inv(fmt.Sprintf("(sparent %s)", r))
+							return er, fmt.Sprintf("(and ((_ is mksub) %s) (= (sfld %s) %d) %s)", r, r, ii, cond)
+						})
 				}
 				continue
 			}
@@ -1085,13 +1090,14 @@ func (c *Ctx) appendStructElems(s *State, dst, src, res SliceV, fits string, el 
 					c.ar.idxSort(), c.idxCmp(token.LEQ, lo, k), c.idxCmp(token.LSS, k, mid), n, newRef, h, dstRef, n, newRef))
 				c.assume(s, fmt.Sprintf("(forall ((k %s)) (! (=> (and %s %s) (= (select %s %s) (select %s %s))) :pattern ((select %s %s))))",
 					c.ar.idxSort(), c.idxCmp(token.LEQ, mid, k), c.idxCmp(token.LSS, k, hi), n, newRef, h, srcRef, n, newRef))
-				// frame: refs that are not elements [mid,hi) of the result array are unchanged
-				c.assume(s, fmt.Sprintf("(forall ((r Ref)) (! (=> (not (and ((_ is mkelem) (relem r)) (= (earr (relem r)) %s) %s %s)) (= (select %s r) (select %s r))) :pattern ((select %s r))))",
-					res.Arr, c.idxCmp(token.LEQ, mid, "(eidx (relem r))"), c.idxCmp(token.LSS, "(eidx (relem r))", hi), n, h, n))
+				// frame: refs that are not this field of elements [mid,hi) of the result array are unchanged
+				er, shape := inv("r")
+				c.assume(s, fmt.Sprintf("(forall ((r Ref)) (! (=> (not (and %s ((_ is mkelem) %s) (= (earr %s) %s) %s %s)) (= (select %s r) (select %s r))) :pattern ((select %s r))))",
+					shape, er, er, res.Arr, c.idxCmp(token.LEQ, mid, "(eidx "+er+")"), c.idxCmp(token.LSS, "(eidx "+er+")", hi), n, h, n))
 			}
 		}
 	}
-	walk(el, func(base string) string { return base })
+	walk(el, func(base string) string { return base }, func(r string) (string, string) { return r, "true" })
 }
 
 func (c *Ctx) copyBuiltin(s *State, fr *Frame, x ssa.Instruction, args []Val, raw []ssa.Value) Val {
